@@ -209,11 +209,15 @@ def readCommands (d : TrkData α S E P) : TrkData α S E P :=
   | none => d2
 
 mutual
-/-- mirrors: Track::should_be_removed -/
+/-- mirrors: track/sub.rs::Track::should_be_removed, backend/resources.rs::ResourceStorage::is_empty, backend/resources.rs::ResourceStorage::has_pending
+    (`self.sounds.is_empty()`: nothing in the arena and nothing waiting in the new-resource ring;
+    `self.sub_tracks.has_pending()`: a sub-track is waiting in the new-resource ring) -/
 def shouldBeRemoved : Trk α S E P → Bool
-  | node d children _ =>
-    if anyNotRemovable children then false
-    else if d.persist then d.marked && d.sounds.isEmpty
+  | node d children pending =>
+    -- `self.sub_tracks.has_pending()`
+    if !pending.isEmpty then false
+    else if anyNotRemovable children then false
+    else if d.persist then d.marked && (d.sounds.isEmpty && d.pendingSounds.isEmpty)
     else d.marked
 /-- `self.sub_tracks.iter().any(|(_, t)| !t.should_be_removed())` -/
 def anyNotRemovable : List (Trk α S E P) → Bool
@@ -255,15 +259,21 @@ def trackInfo (C : Comps α S E P) (d : TrkData α S E P) (parentInfo : Info α)
   | some p => C.spInfo p parentInfo
   | none => parentInfo
 
+/-- the fallback in "update playback state" of `Track::process`: tracks have no stopped state — a
+    manager that `update` left Stopped (the awaited clock no longer exists) is marked Paused
+    (`if playback_state() == Stopped { mark_as_paused() }`) -/
+def pausedIfStopped (m : Psm α) : Psm α :=
+  if m.playbackState = .stopped then m.markAsPaused else m
+
 /-- "update volume parameters" and "update playback state" of `Track::process` for a chunk of `n`
-    frames (the published state follows the manager when it changes) -/
+    frames (the published state follows the manager when it changes; a track never stays Stopped) -/
 def preUpdate (dt : α) (info : Info α) (n : Nat) (d : TrkData α S E P) : TrkData α S E P :=
   let dtn := dt * (KOps.ofNat n : α)
   let vol := (d.volume.update tw32 dtn info).1
   let routes := d.routes.map (fun (r : Route α) => { r with volume := (r.volume.update tw32 dtn info).1 })
   let u := d.psm.update dtn info
   let d1 : TrkData α S E P := { d with volume := vol, routes := routes, psm := u.1 }
-  if u.2 then publish d1 else d1
+  if u.2 then publish { d1 with psm := pausedIfStopped d1.psm } else d1
 
 /-- `self.playback_state_manager.playback_state().is_advancing()` -/
 def advancing (d : TrkData α S E P) : Bool := d.psm.playbackState.isAdvancing
@@ -338,14 +348,14 @@ inductive TrackPlaybackState where
   | playing | pausing | paused | waitingToResume | resuming
 deriving DecidableEq, Repr
 
-/-- mirrors: track.rs::TrackShared::state — `none` is `panic!("Invalid playback state")` -/
-def decodeTrackState : Nat → Option TrackPlaybackState
-  | 0 => some .playing
-  | 1 => some .pausing
-  | 2 => some .paused
-  | 3 => some .waitingToResume
-  | 4 => some .resuming
-  | _ => none
+/-- mirrors: track.rs::TrackShared::state — total: any other byte reads as Paused -/
+def decodeTrackState : Nat → TrackPlaybackState
+  | 0 => .playing
+  | 1 => .pausing
+  | 2 => .paused
+  | 3 => .waitingToResume
+  | 4 => .resuming
+  | _ => .paused
 
 namespace Trk
 variable {S E P : Type}
@@ -402,7 +412,7 @@ def hAddSubTrack (child : Trk α S E P) : Trk α S E P → Trk α S E P
 def hDrop : Trk α S E P → Trk α S E P :=
   mapData (fun d => { d with marked := true })
 /-- mirrors: TrackHandle::state -/
-def hState (t : Trk α S E P) : Option TrackPlaybackState := decodeTrackState t.data.pubState
+def hState (t : Trk α S E P) : TrackPlaybackState := decodeTrackState t.data.pubState
 /-- mirrors: TrackHandle::num_sounds (reserved arena slots: inserted + still in the ring) -/
 def hNumSounds (t : Trk α S E P) : Nat := t.data.sounds.length + t.data.pendingSounds.length
 /-- mirrors: TrackHandle::num_sub_tracks -/
